@@ -1,14 +1,18 @@
 package adapters
 
 import (
+	"bytes"
+	"encoding/gob"
 	"fmt"
 	"math/rand"
 	"sort"
 	"strings"
+	"time"
 
 	. "verifh/simsched"
 
 	"github.com/DistCompiler/pgo/distsys"
+	"github.com/DistCompiler/pgo/distsys/resources"
 	"github.com/DistCompiler/pgo/distsys/tla"
 	"github.com/DistCompiler/pgo/distsys/trace"
 	"github.com/DistCompiler/pgo/systems/raftkvs"
@@ -26,6 +30,11 @@ type RaftOpts struct {
 	BiasFD, BiasLeaderTimeout, BiasClientTimeout uint
 	CrashAfter                                   int // commits before a crasher may be scheduled
 	MaxOps                                       int // per client, 0 = unbounded (exact=false only)
+	// RealShared binds the spec's plain per-server variables (state, currentTerm, log, commitIndex, nextIndex,
+	// matchIndex, votedFor, votesResponded, votesGranted, leader, sm, smDomain) the way bootstrap/server.go does:
+	// one real LocalSharedManager per (variable, server) behind an IncMap, shared by the server's five archetypes.
+	// The Store copies are refreshed from the managers after every commit, and compared after every abort.
+	RealShared bool
 }
 
 // HistOp is one client operation of the recorded history (logical times = commit numbers).
@@ -144,6 +153,7 @@ func init() {
 		if o.NS == 3 {
 			o.MaxNodeFail = rng.Intn(2)
 		}
+		o.RealShared = seed%2 == 0 // every second run with the production LocalShared/IncMap binding of the plain variables
 		return Raftkvs(seed, o).Sim
 	}})
 }
@@ -356,8 +366,39 @@ func Raftkvs(seed int64, o RaftOpts) *RaftSim {
 	}
 
 	M1 := func(v string, r RD, w WR) distsys.ArchetypeResource { return M(st, v, 1, r, w) }
+	plainVars := []string{"state", "currentTerm", "log", "commitIndex", "nextIndex", "matchIndex", "votedFor", "votesResponded", "votesGranted", "leader", "sm", "smDomain"}
+	isPlain := map[string]bool{}
+	mgrs := map[string]map[int]*resources.LocalSharedManager{}
+	if o.RealShared {
+		for _, v := range plainVars {
+			isPlain[v] = true
+			mgrs[v] = map[int]*resources.LocalSharedManager{}
+			for i := 1; i <= NS; i++ {
+				mgrs[v][i] = resources.NewLocalSharedManager(st.Get(v).ApplyFunction(N(i)), resources.WithLocalSharedResourceTimeout(time.Second))
+			}
+		}
+	}
+	readMgrs := func(v string) tla.Value {
+		return Fn(srvSet, func(i tla.Value) tla.Value {
+			buf, err := mgrs[v][int(i.AsNumber())].MakeLocalShared().GetState()
+			if err != nil {
+				panic(err)
+			}
+			var val tla.Value
+			if err := gob.NewDecoder(bytes.NewReader(buf)).Decode(&val); err != nil {
+				panic(err)
+			}
+			return val
+		})
+	}
 	serverRes := func() []distsys.MPCalContextConfigFn {
 		p := func(name, v string, r RD, w WR) distsys.MPCalContextConfigFn {
+			if isPlain[v] {
+				ms := mgrs[v]
+				return distsys.EnsureArchetypeRefParam(name, resources.NewIncMap(func(index tla.Value) distsys.ArchetypeResource {
+					return ms[int(index.AsNumber())].MakeLocalShared()
+				}))
+			}
 			return distsys.EnsureArchetypeRefParam(name, M1(v, r, w))
 		}
 		return []distsys.MPCalContextConfigFn{
@@ -419,6 +460,24 @@ func Raftkvs(seed int64, o RaftOpts) *RaftSim {
 		MaxSteps:   400}
 	s.IdleRounds = 12
 	rs.Sim = sim
+	if o.RealShared {
+		sim.Params["real_shared"] = true
+		sim.Sync = func() {
+			for _, v := range plainVars {
+				val := readMgrs(v)
+				st.Cur[v], st.Committed[v] = val, val
+			}
+		}
+		sim.AfterAbort = func(p *Proc, label string) []Violation {
+			var vs []Violation
+			for _, v := range plainVars {
+				if now := readMgrs(v); !now.Equal(st.Committed[v]) {
+					vs = append(vs, Violation{Key: "C02:raftkvs:aborted-attempt-changed-state:" + v, Desc: fmt.Sprintf("an aborted attempt of %s(%s) at %s left %s = %s, last committed %s (a step the spec disables must have no effect)", p.Arch.Name, p.Self.String(), label, v, now.String(), st.Committed[v].String())})
+				}
+			}
+			return vs
+		}
+	}
 	mon := NewRaftMonitor(NS, st.Get, "C08:sim:", true)
 	rs.RaftStats = mon.Stats
 	inner := func(step Step) []Violation {
